@@ -117,15 +117,18 @@ theorem spine_elem_recorded (c : Ctx) (k : Kind) (args : Expr) :
 
 /-! ## The property -/
 
-/-- **C11 at full strength** for a context `c`: whenever the access collection does not raise,
+/-- **C11 for one statement** in context `c`: whenever the access collection does not raise,
 every element read by any execution of the statement (any store, any behaviour of the
 callees) belongs to a variable reported as read, and every element written to a variable
 reported as written. -/
-def C11_statement (c : Ctx) : Prop :=
-  ∀ (s : Stmt) (A : List Access), refAcc c s = some A →
+def C11_holds_for (c : Ctx) (s : Stmt) : Prop :=
+  ∀ (A : List Access), refAcc c s = some A →
     ∀ (ω : Oracle) (σ : Store) (l : Loc),
       (Event.rd l ∈ (execT ω c.attrs s σ).2 → l.1 ∈ readVars A) ∧
       (Event.wr l ∈ (execT ω c.attrs s σ).2 → l.1 ∈ writtenVars A)
+
+/-- **C11 at full strength**: for every statement. -/
+def C11_statement (c : Ctx) : Prop := ∀ s : Stmt, C11_holds_for c s
 
 /-- The tracing semantics is a refinement of the shared MiniF semantics: on (the embedding
 of) every MiniF statement its store component is `MiniF.exec`. -/
@@ -133,13 +136,16 @@ theorem C11_execT_agrees (ω : Oracle) (tb : Nat → IAttr) (s : MiniF.Stmt) (σ
     (execT ω tb (emb s) σ).1 = MiniF.exec s σ := execT_emb ω tb s σ
 
 /-- Every element read is reported read — for ALL three rules (pinned, fixed, ideal), all
-statements, stores, callee behaviours and trip counts. -/
-theorem C11_reads (c : Ctx) (s : Stmt) (A : List Access) (h : refAcc c s = some A)
+stores, callee behaviours and trip counts, and every statement in which no inquiry intrinsic
+is applied to a subscripted object (`okES`; see `C11_inquiry_counterexample`).  Subscripts
+on every component of a structure access are included (the reference forms carry the
+subscripts of all components). -/
+theorem C11_reads (c : Ctx) (s : Stmt) (hq : okES c.attrs s = true) (A : List Access) (h : refAcc c s = some A)
     (ω : Oracle) (σ : Store) (l : Loc) (hev : Event.rd l ∈ (execT ω c.attrs s σ).2) :
     l.1 ∈ readVars A := by
   simp only [refAcc, Option.map_eq_some_iff] at h
   obtain ⟨r, hr, rfl⟩ := h
-  have := accS_covers (w := false) c ω (fun hw => by cases hw) s false 0 σ r (fun hw => by cases hw) hr
+  have := accS_covers (w := false) c ω (fun hw => by cases hw) s false 0 σ r (fun hw => by cases hw) hq hr
   obtain ⟨a, ha, h1, h2⟩ := this _ hev
   exact mem_readVars.mpr ⟨a, ha, h1, h2⟩
 
@@ -147,57 +153,79 @@ theorem C11_reads (c : Ctx) (s : Stmt) (A : List Access) (h : refAcc c s = some 
 their by-reference arguments READWRITE and (ii) so does every call statement / intrinsic
 statement occurring in `s` (`okS`). -/
 theorem C11_writes (c : Ctx) (hfn : c.rule.callRW false false = true) (s : Stmt) (hok : okS c s = true)
-    (A : List Access) (h : refAcc c s = some A)
+    (hq : okES c.attrs s = true) (A : List Access) (h : refAcc c s = some A)
     (ω : Oracle) (σ : Store) (l : Loc) (hev : Event.wr l ∈ (execT ω c.attrs s σ).2) :
     l.1 ∈ writtenVars A := by
   simp only [refAcc, Option.map_eq_some_iff] at h
   obtain ⟨r, hr, rfl⟩ := h
-  have := accS_covers (w := true) c ω (fun _ => hfn) s false 0 σ r (fun _ => hok) hr
+  have := accS_covers (w := true) c ω (fun _ => hfn) s false 0 σ r (fun _ => hok) hq hr
   obtain ⟨a, ha, h1, h2⟩ := this _ hev rfl
   exact mem_writtenVars.mpr ⟨a, ha, h1, h2⟩
 
-/-- The full statement holds for the ideal rule, with any intrinsic table. -/
-theorem C11_ideal (tb : Nat → IAttr) : C11_statement ⟨idealRule, tb⟩ := by
-  intro s A h ω σ l
-  exact ⟨C11_reads _ s A h ω σ l, C11_writes _ rfl s (okS_ideal tb s) A h ω σ l⟩
+/-- With the ideal call rule the property holds for every statement without an inquiry of a
+subscripted object, with any intrinsic table. -/
+theorem C11_ideal (tb : Nat → IAttr) (s : Stmt) (hq : okES tb s = true) : C11_holds_for ⟨idealRule, tb⟩ s := by
+  intro A h ω σ l
+  exact ⟨C11_reads _ s hq A h ω σ l, C11_writes _ rfl s (okS_ideal tb s) hq A h ω σ l⟩
 
 /-- **The code with the fix**: the property holds for every statement that contains no CALL of
-a PURE subroutine (the remaining known finding). -/
-theorem C11_fixed_partial (s : Stmt) (hs : noPureSub s = true) (A : List Access)
-    (h : refAcc fixedCtx s = some A) (ω : Oracle) (σ : Store) (l : Loc) :
-    (Event.rd l ∈ (execT ω fixedCtx.attrs s σ).2 → l.1 ∈ readVars A) ∧
-    (Event.wr l ∈ (execT ω fixedCtx.attrs s σ).2 → l.1 ∈ writtenVars A) :=
-  ⟨C11_reads _ s A h ω σ l,
-   C11_writes fixedCtx rfl s (by rw [fixedCtx, okS_fixed]; exact hs) A h ω σ l⟩
+a PURE subroutine and no inquiry of a subscripted object (the two known findings). -/
+theorem C11_fixed_partial (s : Stmt) (hs : noPureSub s = true) (hq : okES Gen.attrs s = true) :
+    C11_holds_for fixedCtx s := by
+  intro A h ω σ l
+  exact ⟨C11_reads _ s hq A h ω σ l,
+    C11_writes fixedCtx rfl s (by rw [fixedCtx, okS_fixed]; exact hs) hq A h ω σ l⟩
 
-/-- The full statement is false of the code with the fix: `call psub(x)` with
-`pure subroutine psub` storing into its argument is reported as `x: READ`. -/
-theorem C11_fixed_counterexample : ¬ C11_statement fixedCtx := by
+/-- `call psub(x)` with `pure subroutine psub` storing into its argument is reported as
+`x: READ` by the code with the fix (and by the pinned code). -/
+theorem C11_fixed_counterexample : ¬ C11_holds_for fixedCtx (.call true 0 (.cons (.var 0) .nil)) := by
   intro h
-  have := (h (.call true 0 (.cons (.var 0) .nil)) [⟨0, .read, 0, 0⟩] (by decide)
+  have := (h [⟨0, .read, 0, 0⟩] (by decide)
     ⟨fun _ _ => 0, fun _ _ _ => some 1, fun _ _ => 0⟩ (MiniF.storeOf []) (0, 0, 0)).2
     (by simp [execT, evalT, applyUpd])
   revert this
   decide
 
-/-- **The pinned code**: the property holds for statements without PURE-subroutine calls and
-without intrinsic statements. -/
+/-- **The pinned code**: the property holds for statements without PURE-subroutine calls,
+without intrinsic statements and without inquiries of subscripted objects. -/
 theorem C11_pinned_partial (s : Stmt) (hs : noPureSub s = true) (hi : noIntrStmt s = true)
-    (A : List Access) (h : refAcc pinnedCtx s = some A) (ω : Oracle) (σ : Store) (l : Loc) :
-    (Event.rd l ∈ (execT ω pinnedCtx.attrs s σ).2 → l.1 ∈ readVars A) ∧
-    (Event.wr l ∈ (execT ω pinnedCtx.attrs s σ).2 → l.1 ∈ writtenVars A) :=
-  ⟨C11_reads _ s A h ω σ l,
-   C11_writes pinnedCtx rfl s (by rw [pinnedCtx, okS_pinned, hs, hi]; rfl) A h ω σ l⟩
+    (hq : okES Gen.attrs s = true) : C11_holds_for pinnedCtx s := by
+  intro A h ω σ l
+  exact ⟨C11_reads _ s hq A h ω σ l,
+    C11_writes pinnedCtx rfl s (by rw [pinnedCtx, okS_pinned, hs, hi]; rfl) hq A h ω σ l⟩
 
 /-- The pinned code reports `call random_number(x)` (as an `IntrinsicCall`) as `x: READ`. -/
-theorem C11_pinned_counterexample : ¬ C11_statement pinnedCtx := by
+theorem C11_pinned_counterexample :
+    ¬ C11_holds_for pinnedCtx (.icall Gen.id_RANDOM_NUMBER 0 (.cons (.var 0) .nil)) := by
   intro h
   have hi : (pinnedCtx.attrs Gen.id_RANDOM_NUMBER).inquiry = false := by decide
-  have := (h (.icall Gen.id_RANDOM_NUMBER 0 (.cons (.var 0) .nil)) [⟨0, .read, 0, 0⟩] (by decide)
+  have := (h [⟨0, .read, 0, 0⟩] (by decide)
     ⟨fun _ _ => 0, fun _ _ _ => some 1, fun _ _ => 0⟩ (MiniF.storeOf []) (0, 0, 0)).2
     (by simp [execT, evalT, applyUpd, hi])
   revert this
   decide
+
+/-- `n = size(w(idx(j):10))` (w = 0, idx = 1, j = 2, n = 3): evaluating the section bound reads
+`j` and `idx`, but the collection skips the whole inquired argument and reports only
+`n: WRITE` — for every rule, also the ideal one (known finding
+C11-inquiry-subscripts-not-read). -/
+theorem C11_inquiry_counterexample (r : Rule) :
+    ¬ C11_holds_for ⟨r, Gen.attrs⟩ (.asg (.var 3) (.intr Gen.id_SIZE
+        (.cons (.idxs 0 1 (.cons (.cons (.idx1 1 (.var 2)) (.cons (.lit 10) (.cons (.lit 1) .nil))) .nil)) .nil))) := by
+  intro h
+  have hi : (Gen.attrs Gen.id_SIZE).inquiry = true := by decide
+  have hA : refAcc ⟨r, Gen.attrs⟩ (.asg (.var 3) (.intr Gen.id_SIZE
+      (.cons (.idxs 0 1 (.cons (.cons (.idx1 1 (.var 2)) (.cons (.lit 10) (.cons (.lit 1) .nil))) .nil)) .nil)))
+      = some [⟨3, .write, 0, 0⟩] := by
+    simp [refAcc, accS, acc, hi, Expr.isRef, Expr.refVar, changeReadToWrite, project, bumpIf, shift]
+  have := (h _ hA ⟨fun _ _ => 0, fun _ _ _ => none, fun _ _ => 0⟩ (MiniF.storeOf []) (2, 0, 0)).1
+    (by simp [execT, evalT, lhsT, hi])
+  revert this
+  decide
+
+/-- Hence the full statement fails for every rule. -/
+theorem C11_statement_fails (r : Rule) : ¬ C11_statement ⟨r, Gen.attrs⟩ :=
+  fun h => C11_inquiry_counterexample r (h _)
 
 /-- With the fix the same statement (and ALLOCATE) is reported READWRITE. -/
 theorem C11_fixed_intrinsic_stmt (k f : Nat) (args : Expr) (A : List Access)
@@ -226,10 +254,11 @@ theorem C11_call_args_written (c : Ctx) (p : Bool) (f : Nat) (args : Expr)
 
 /-- … and dynamically: every store a callee makes through an argument is reported. -/
 theorem C11_call_writes (c : Ctx) (hfn : c.rule.callRW false false = true) (p : Bool) (f : Nat) (args : Expr)
-    (hrw : c.rule.callRW p true = true) (A : List Access) (h : refAcc c (.call p f args) = some A)
+    (hrw : c.rule.callRW p true = true) (hq : okE c.attrs args = true)
+    (A : List Access) (h : refAcc c (.call p f args) = some A)
     (ω : Oracle) (σ : Store) (l : Loc) (hev : Event.wr l ∈ (execT ω c.attrs (.call p f args) σ).2) :
     l.1 ∈ writtenVars A :=
-  C11_writes c hfn _ (by simpa [okS] using hrw) A h ω σ l hev
+  C11_writes c hfn _ (by simpa [okS] using hrw) (by simpa [okES] using hq) A h ω σ l hev
 
 /-- **Order inside an assignment (static).**  When the collection does not raise, the access
 list is `pre ++ [target]`: the target's WRITE is the last access, `pre` consists of the
@@ -376,6 +405,11 @@ example : noPureSub (.seq (.call false 0 (.cons (.var 0) .nil))
 example : (refAcc fixedCtx (.seq (.call false 0 (.cons (.var 0) .nil))
     (.loop 1 (.lit 1) (.var 0) (.lit 1) (.icall Gen.id_RANDOM_NUMBER 1 (.cons (.idx1 2 (.var 1)) .nil))))).isSome = true := by
   decide
+example : okES Gen.attrs (.seq (.call false 0 (.cons (.idxs 0 3 (.cons (.var 1) (.cons (.var 2) (.cons (.var 3) .nil)))) .nil))
+    (.asg (.var 4) (.intr Gen.id_SIZE (.cons (.var 5) (.cons (.var 1) .nil))))) = true := by decide
+/-- `call update(g(i)%b(j)%x(k))`: the subscripts of ALL components are reported READ -/
+example : refAcc fixedCtx (.call false 0 (.cons (.idxs 0 3 (.cons (.var 1) (.cons (.var 2) (.cons (.var 3) .nil)))) .nil))
+    = some [⟨0, .readwrite, 0, 0⟩, ⟨1, .read, 0, 0⟩, ⟨2, .read, 0, 0⟩, ⟨3, .read, 0, 0⟩] := by decide
 example : noIntrStmt (.ite (.var 0) (.call false 0 (.cons (.var 1) .nil)) .skip) = true := by decide
 
 /-- the live table: SIZE/LBOUND are inquiries, ALLOCATE / RANDOM_NUMBER are not pure -/
